@@ -28,7 +28,7 @@ def universe():
             c["id"] += f":tbi={mode}"
             c["stratum"] += f":{mode}"
             jj[i] = c
-    return u + jj
+    return u + jj + common.jj_cases(160, "loopsep", FOUR)
 
 
 def cases(tier, seed):
